@@ -5,6 +5,22 @@ HERE = os.path.dirname(os.path.dirname(os.path.abspath(__file__)))
 ALL = ['C%02d' % i for i in range(1, 21)]
 
 CLAIMED = {
+ 'C14': dict(
+    level='model_checking',
+    text='Rewrite.tla defines a SURFACE of a program - which statement boundaries are written as colons, where trailing comments and '
+         'empty/REM lines stand, where LET, the CALL form, the NEXT variable and `><` are used, and the letter-case, spacing and '
+         'label-naming styles - the legal rewriting steps, and Neutral: no statement governed by a single-line IF, swallowed by a comment, '
+         'no label inside a line, no bare call that reads as a label. TLC (MC_Rewrite.tla) checks Neutral over every surface reachable for '
+         'all statement structures of length 3 (4 in the thorough tier) and confirms that the rule set with one condition dropped is '
+         'refuted; for real programs (generated ones and three templates: labelled DATA groups with RESTORE and line numbers; DEFtype '
+         'statements; records, SHARED/STATIC/CONST, ON ERROR, SELECT CASE, single-line IF ELSE, CALL forms, strings that look like code) it '
+         'enumerates the extremes of the orbit (every site of up to MaxKinds kinds at once, each style) and random walks of single steps. '
+         'Each surface is rendered to text, compiled and compared with the plain text\'s module: sections 1-4 byte-identical, else same '
+         'device interactions and outcome. Trace_Rewrite.tla gives the verdict and re-checks each rendered surface against Legal and '
+         'Neutral. Failing surfaces are shrunk to the smallest set of rewriting kinds and sites before they are reported.',
+    note='Trusted: TLC, the renderer (lib/rewrite.py: case and spacing changes outside string literals and DATA payloads, label renaming by whole-word substitution), the unparser. A trailing REM without a colon and a colon after an argument-less bare call are NOT neutral in QBASIC and are excluded by the model (both were found as false alarms of an earlier rule set).',
+    technique='TLA+ model of text surfaces and neutral rewriting steps; TLC-enumerated orbit rendered and compiled; trace verdicts per surface',
+    design='6 C14'),
  'C13': dict(
     level='model_checking',
     text='Two TLA+ oracles decide the debugger\'s `print <expr>`. (1) QB.tla: generated programs (records, arrays, CONSTs, STATIC and SHARED '
